@@ -118,6 +118,14 @@ def gen_case(seed, i):
             at = rng.randint(0, len(roots))
             roots = roots[:at] + ["out/p%d" % k] + roots[at:]
             spell = spell[:at] + [rng.choice(["abs", "rel", "dot"])] + spell[at:]
+        if flags["S"] and rng.random() < 0.5:
+            # ... and one input path that is itself a symbolic link to a FILE (reported as the link with -S): a root
+            # of its own like the files above, holding one more replica
+            w.add_file("store/lt", {"fam": fam0, "len": n0, "flips": []})
+            w.add_symlink("out/lnk", "../store/lt")
+            at = rng.randint(0, len(roots))
+            roots = roots[:at] + ["out/lnk"] + roots[at:]
+            spell = spell[:at] + [rng.choice(["abs", "rel", "dot"])] + spell[at:]
         spell = [("abs" if (h == "symlink") else h) for h in spell]
     if not flags["isolate"] and rng.random() < 0.25:
         # overlapping input paths: a sub-directory of a root (through the root's symlink in a third of the
